@@ -104,6 +104,9 @@ SplitChains(ch, nosplit) ==
              IN [i \in 1..n |-> c[off + i]]]
 
 \* ------------------------------------------------------------------ rational helpers
+\* TLC re-evaluates the body of [i \in S |-> e] at every application; Mat(f) turns f into an
+\* explicit tuple once (values bound by LET and operator arguments are evaluated once)
+Mat(f) == f \o <<>>
 RMeanSeq(rs) == RDiv(RSumTo(rs, Len(rs)), RInt(Len(rs)))
 \* np.var(rs, ddof): sum (r - mean)^2 / (n - ddof)
 RVarSeq(rs, ddof) ==
@@ -116,25 +119,51 @@ RNonNeg(r) == r[1] >= 0       \* defined rationals have a positive denominator
 (***************************************************************************)
 (* 1. TEXTBOOK split R-hat (BDA3 11.4).  psi_ij: i = 1..n within chain     *)
 (*    j = 1..m, AFTER splitting.                                           *)
+(*      psibar_j = 1/n sum_i psi_ij,   psibar = 1/m sum_j psibar_j         *)
 (*      B      = n / (m - 1) * sum_j (psibar_j - psibar)^2                 *)
-(*      W      = 1 / m * sum_j s_j^2,  s_j^2 = 1/(n-1) sum_i (psi_ij - psibar_j)^2 *)
+(*      s_j^2  = 1 / (n - 1) * sum_i (psi_ij - psibar_j)^2                 *)
+(*      W      = 1 / m * sum_j s_j^2                                       *)
 (*      var+   = (n - 1) / n * W + 1 / n * B                               *)
 (*      Rhat   = sqrt(var+ / W)                                            *)
-(*    The operator returns Rhat^2 (Undef when W = 0, n < 2 or m < 2).      *)
-(*    ddofB is the ddof of the between-chain variance (1 in the textbook,  *)
-(*    0 is a negative control).                                            *)
+(*    The operator returns Rhat^2 (Undef when W = 0 or n < 2).             *)
+(***************************************************************************)
+RhatSqTextbook(ch) ==
+  LET psi == SplitChains(ch, FALSE)
+      m == Len(psi)
+      n == Len(psi[1])
+  IN IF n < 2 THEN Undef
+     ELSE LET psibarj == Mat([j \in 1..m |-> RDiv(RInt(ISum(psi[j])), RInt(n))])
+              psibar == RDiv(RSumTo(psibarj, m), RInt(m))
+              B == RMul(<<n, m - 1>>,
+                        RSumTo([j \in 1..m |-> LET d == RSub(psibarj[j], psibar) IN RMul(d, d)], m))
+              s2 == [j \in 1..m |->
+                       RMul(<<1, n - 1>>,
+                            RSumTo([i \in 1..n |-> LET d == RSub(RInt(psi[j][i]), psibarj[j]) IN RMul(d, d)], n))]
+              W == RMul(<<1, m>>, RSumTo(s2, m))
+              varplus == RAdd(RMul(<<n - 1, n>>, W), RMul(<<1, n>>, B))
+          IN RDiv(varplus, W)
+
+(***************************************************************************)
+(* 2a. CODE gelman_rubin_statistic, statement by statement over rationals  *)
+(*   n_chains *= 2; n_samples //= 2; chains = chains[:, :2*n_samples].reshape(..) *)
+(*   means = np.mean(chains, axis=1); variances = np.var(chains, ddof=1, axis=1) *)
+(*   var_between = n_samples * np.var(means, ddof=1)                       *)
+(*   var_within = np.mean(variances)                                       *)
+(*   var_pooled = ((n_samples - 1.) * var_within + var_between) / n_samples *)
+(*   psrf = np.sqrt(var_pooled / var_within)                               *)
+(* Returns psrf^2.  nosplit = TRUE and ddofB = 0 are negative controls.    *)
 (***************************************************************************)
 RhatSqGen(ch, nosplit, ddofB) ==
   LET sp == SplitChains(ch, nosplit)
       m == Len(sp)
       n == Len(sp[1])
-  IN IF n < 2 \/ m < 2 THEN Undef
-     ELSE LET psibar == [j \in 1..m |-> RMeanSeq(RSeqOfInts(sp[j]))]
-              B == RMul(RInt(n), RVarSeq(psibar, ddofB))
-              W == RMeanSeq([j \in 1..m |-> RVarSeq(RSeqOfInts(sp[j]), 1)])
-              varplus == RAdd(RMul(<<n - 1, n>>, W), RDiv(B, RInt(n)))
-          IN RDiv(varplus, W)
-RhatSqTextbook(ch) == RhatSqGen(ch, FALSE, 1)
+      means == Mat([j \in 1..m |-> RMeanSeq(RSeqOfInts(sp[j]))])
+      variances == [j \in 1..m |-> RVarSeq(RSeqOfInts(sp[j]), 1)]
+      varBetween == RMul(RInt(n), RVarSeq(means, ddofB))
+      varWithin == RMeanSeq(variances)
+      varPooled == RDiv(RAdd(RMul(RInt(n - 1), varWithin), varBetween), RInt(n))
+  IN IF n < 1 THEN Undef ELSE RDiv(varPooled, varWithin)
+RhatSqCode(ch) == RhatSqGen(ch, FALSE, 1)
 
 (***************************************************************************)
 (* 3. CLEARED split R-hat.  With S_j = sum_i psi_ij,                       *)
@@ -155,7 +184,7 @@ R2Int(ch) ==
      ELSE <<(n - 1) * ((m - 1) * Q + TOf(sp)), n * (m - 1) * Q>>
 
 (***************************************************************************)
-(* 2. CODE eff_sample_size, statement by statement over rationals.         *)
+(* 2b. CODE eff_sample_size, statement by statement over rationals.        *)
 (*   means = np.mean(chains, axis=1); variances = np.var(chains, ddof=1, axis=1) *)
 (*   var_between = 0 if n_chains == 1 else n_samples * np.var(means, ddof=1)     *)
 (*   var_within = np.mean(variances)                                       *)
@@ -167,45 +196,38 @@ R2Int(ch) ==
 (*       temp = 1. - (var_within - np.mean(autocov[:, lag])) / var_pooled  *)
 (*       if temp >= 0: estimator_sum += temp; lag += 1  else: break        *)
 (*   ess = n_chains * n_samples / (1. + 2. * estimator_sum)                *)
+(* The result is a record [val, bnd]: val the rational ESS (Undef when     *)
+(* var_pooled is 0 or undefined: the float code then compares nan), bnd =  *)
+(* some truncation test `temp >= 0` evaluated by the loop was exactly 0    *)
+(* (floating point cannot decide it; such chains are excluded from every   *)
+(* ESS clause).                                                            *)
 (* centered = FALSE (autocovariance of the raw chains) is a negative       *)
-(* control; firstChainOnly = TRUE (autocov[0, lag] instead of the mean     *)
-(* over chains) another.                                                   *)
+(* control; firstOnly = TRUE (autocov[0, lag] instead of the mean over     *)
+(* chains) another.                                                        *)
 (***************************************************************************)
-EssMeans(ch) == [j \in 1..Len(ch) |-> RMeanSeq(RSeqOfInts(ch[j]))]
-EssWithin(ch) == RMeanSeq([j \in 1..Len(ch) |-> RVarSeq(RSeqOfInts(ch[j]), 1)])
-EssBetween(ch) == IF Len(ch) = 1 THEN RInt(0) ELSE RMul(RInt(NSamp(ch)), RVarSeq(EssMeans(ch), 1))
-EssPooled(ch) == RDiv(RAdd(RMul(RInt(NSamp(ch) - 1), EssWithin(ch)), EssBetween(ch)), RInt(NSamp(ch)))
-AutoCov(ch, j, t, centered) ==
-  LET N == NSamp(ch)
-      mu == IF centered THEN EssMeans(ch)[j] ELSE RInt(0)
-      y == [i \in 1..N |-> RSub(RInt(ch[j][i]), mu)]
-  IN RDiv(RSumTo([i \in 1..(N - t) |-> RMul(y[i], y[i + t])], N - t), RInt(N - t))
-EssTemp(ch, t, centered, firstOnly) ==
-  LET ac == IF firstOnly THEN AutoCov(ch, 1, t, centered)
-            ELSE RMeanSeq([j \in 1..Len(ch) |-> AutoCov(ch, j, t, centered)])
-  IN RSub(RInt(1), RDiv(RSub(EssWithin(ch), ac), EssPooled(ch)))
-RECURSIVE EssLoop(_, _, _, _, _)
-EssLoop(ch, lag, acc, centered, firstOnly) ==
-  IF lag >= NSamp(ch) THEN acc
-  ELSE LET temp == EssTemp(ch, lag, centered, firstOnly)
-       IN IF IsDef(temp) /\ RNonNeg(temp) THEN EssLoop(ch, lag + 1, RAdd(acc, temp), centered, firstOnly)
-          ELSE acc
+AutoCovAt(y, t) ==
+  LET k == Len(y) - t IN RDiv(RSumTo([i \in 1..k |-> RMul(y[i], y[i + t])], k), RInt(k))
+RECURSIVE EssLoop(_, _, _, _, _, _, _)
+EssLoop(ys, W, V, lag, acc, bnd, firstOnly) ==
+  IF lag >= Len(ys[1]) THEN [sum |-> acc, bnd |-> bnd]
+  ELSE LET ac == IF firstOnly THEN AutoCovAt(ys[1], lag)
+                 ELSE RMeanSeq([j \in 1..Len(ys) |-> AutoCovAt(ys[j], lag)])
+           temp == RSub(RInt(1), RDiv(RSub(W, ac), V))
+       IN IF temp[1] >= 0 THEN EssLoop(ys, W, V, lag + 1, RAdd(acc, temp), bnd \/ temp[1] = 0, firstOnly)
+          ELSE [sum |-> acc, bnd |-> bnd]
 EssGen(ch, centered, firstOnly) ==
-  IF ~IsDef(EssPooled(ch)) \/ EssPooled(ch)[1] = 0 THEN Undef      \* 0/0: the float code yields nan comparisons
-  ELSE RDiv(RInt(Len(ch) * NSamp(ch)),
-            RAdd(RInt(1), RMul(RInt(2), EssLoop(ch, 1, RInt(0), centered, firstOnly))))
+  LET M == Len(ch)
+      N == NSamp(ch)
+      means == Mat([j \in 1..M |-> RMeanSeq(RSeqOfInts(ch[j]))])
+      variances == [j \in 1..M |-> RVarSeq(RSeqOfInts(ch[j]), 1)]
+      varBetween == IF M = 1 THEN RInt(0) ELSE RMul(RInt(N), RVarSeq(means, 1))
+      varWithin == RMeanSeq(variances)
+      varPooled == RDiv(RAdd(RMul(RInt(N - 1), varWithin), varBetween), RInt(N))
+      ys == Mat([j \in 1..M |-> Mat([i \in 1..N |-> RSub(RInt(ch[j][i]), IF centered THEN means[j] ELSE RInt(0))])])
+  IN IF ~IsDef(varPooled) \/ varPooled[1] = 0 THEN [val |-> Undef, bnd |-> FALSE]
+     ELSE LET r == EssLoop(ys, varWithin, varPooled, 1, RInt(0), FALSE, firstOnly)
+          IN [val |-> RDiv(RInt(M * N), RAdd(RInt(1), RMul(RInt(2), r.sum))), bnd |-> r.bnd]
 EssCodeRat(ch) == EssGen(ch, TRUE, FALSE)
-\* a truncation test `temp >= 0` that is exactly 0 up to (and including) the lag the loop stops at:
-\* floating point cannot decide it; such chains are excluded from every ESS clause
-RECURSIVE EssBoundaryFrom(_, _)
-EssBoundaryFrom(ch, lag) ==
-  IF lag >= NSamp(ch) THEN FALSE
-  ELSE LET temp == EssTemp(ch, lag, TRUE, FALSE)
-       IN IF ~IsDef(temp) THEN FALSE
-          ELSE IF temp[1] = 0 THEN TRUE
-          ELSE IF temp[1] > 0 THEN EssBoundaryFrom(ch, lag + 1)
-          ELSE FALSE
-EssBoundaryRat(ch) == EssBoundaryFrom(ch, 1)
 
 (***************************************************************************)
 (* 3. CLEARED ESS.  z_ji = N x_ji - S_j (integers, shift invariant),       *)
